@@ -18,6 +18,7 @@ CASE_TYPE = 'MColmap.case'
 CHECK_FN = 'MColmap.check_case'
 SHARD_SIZE = 4
 CASE_TIMEOUT = 120
+SEARCH_CAP = 200
 RULE = ('a case = one dataset built with the real kapture classes and written by kapture_to_dir: 1..3 cameras of random COLMAP '
         'models (integral image size, parameters from {integers, decimals, tiny, negative, -0.0}) plus optionally an unused camera '
         'and a lidar; 1..7 images whose names are drawn so that the id order (timestamp, sensor) differs from the lexical order '
@@ -233,7 +234,7 @@ def _out_of_range(rng, tier):
 
 
 def gen_cases(rng, tier):
-    n_in, n_out = (60, 14) if tier == 'quick' else (800, 120)
+    n_in, n_out = (60, 14) if tier == 'quick' else (600, 100)
     cases = []
     for _ in range(n_in):
         cases.append(_gen_dataset(rng, tier, 'in'))
